@@ -176,7 +176,7 @@ hist_prop("C02",
     ["c02_adopt_exact", "c02_adopt_some", "c02_repeat", "c02_any_stop_point", "c02_order_independent", "c02_pinned_full_window_refuted"],
     ["the 64-bit storage counter must stay below 2^64 in every state along the history (adoption resets it to the largest stored number, so a bound on the final state alone would say nothing about earlier ones)",
      "the sequence-continues clause excludes key 0 (client identifier); FileSystem as a store is the subject of C19; both stores (volatile map via simStore) are exercised on histories"],
-    "C02 generator: restart rate 6-12 % per step, so 1-5 stop/adopt cycles per history with publishes and acknowledgements in between; stop points are the API-call boundaries of the history.",
+    "C02 generator: restart rate 6-12 % per step, so 1-5 stop/adopt cycles per history with publishes and acknowledgements in between; stop points are the API-call boundaries of the history; BOTH STORES: the corpus and every third random history run on the library's FileSystem store (scratch directory) behind the recording Persistence, the others on the in-memory map.",
     REFINE + "AdoptSession on the Persistence of any state satisfying the invariant is exact (c02_adopt_exact: a client, no warning, nothing deleted, same windows/identifiers/stages, storage sequence continued, invariant again) and composes for any number of cycles (c02_repeat); each abstract transition performs at most one Save/Delete, so stop points between Persistence operations are covered (c02_any_stop_point). Mixed histories (API calls interleaved with any number of stop + AdoptSession cycles, failed adoptions included) keep Good = OInv' + known_keys + markers_genuine in every state (c02_reachable_good_mixed_all); a failed adoption deletes nothing. The pinned counter reconstruction is refuted for a full PUBREL window (F22, repaired). c02_ok judges the trace (no warnings on an untampered store, delete/ack/order rules across restarts).",
     "Trusted: Coq kernel; Session model; harness. The former side conditions known_keys/markers_genuine are now invariants of every reachable state of mixed histories (c02_reachable_good_mixed), so c02_adopt_exact_reachable has no hypothesis beyond 'no Persistence failure during adoption' and 'limits not below the pending windows'.",
     "Coq proof (sorting by storage number, arithmetic mod 2^14) on top of refinement + invariant; model/implementation correspondence with restarts")
@@ -228,7 +228,7 @@ hist_prop("C16",
     ["c16_adopt_total", "c16_single_byte_damage_is_undecodable", "c16_truncated_is_undecodable", "c16_purge_keeps_good_records", "c16_adopt_changes_store_only_by_purge", "c16_adopt_of_consistent_store"],
     ["adopt_connectable (after adoption every record a resend loads exists and decodes) for a store damaged in up to k records is judged on histories (14 damage scenarios x restart x connect), not a theorem",
      "records abandoned by an adoption (dropped PUBREL range, gaps) stay in the Persistence and are reported again by later adoptions until overwritten"],
-    "C16 generator: a session with transfers at every stage (3 at-least-once PUBLISH, PUBREL, 3 exactly-once PUBLISH, reception marker), then the Persistence is rewritten (byte flip, truncation, removal, stray entries, empty leftover; on PUBLISH, PUBREL, marker, client-identifier records; one or two records), then AdoptSession, connect, duplicates, new publishes, another restart; plus random histories.",
+    "C16 generator: a session with transfers at every stage (3 at-least-once PUBLISH, PUBREL, 3 exactly-once PUBLISH, reception marker), then the Persistence is rewritten (byte flip, truncation, removal, stray entries, empty leftover; on PUBLISH, PUBREL, marker, client-identifier records; one or two records), then AdoptSession, connect, duplicates, new publishes, another restart; plus random histories; every scenario also on the library's FileSystem store (scratch directory), every third random history too.",
     ALLSTATES + "For ANY Persistence content AdoptSession terminates, deletes and counts every undecodable record and keeps the rest (c16_adopt_total); altered or truncated records are always undecodable (C15). c16_ok judges the trace: adoption is fatal only for Persistence failures or a pending count above the limit; after adoption no ReadSlices fails with a class-less error (missing/corrupt own record). Known finding F15 (client identifier record damaged or removed: connect fails / empty identifier) is recorded, not repaired.",
     "Trusted: Coq kernel; Session model; harness (store rewrites are applied to the model's map as well).",
     "Coq proof of totality over arbitrary stores + model/implementation correspondence on damage scenarios")
